@@ -8,6 +8,7 @@ import (
 	"bytes"
 	"errors"
 	"fmt"
+	"os"
 	"sort"
 
 	NoKV "github.com/feichai0017/NoKV"
@@ -37,6 +38,7 @@ type Profile struct {
 type IterStep struct {
 	K      string // rewind | seek | next
 	Target []byte
+	NoVal  bool // do not touch the value at this position (what key-only scans do)
 }
 
 // IterSpec describes an iterator and the calls made on it.
@@ -71,8 +73,17 @@ type Case struct {
 	Ops    []Op
 }
 
+// exactOnly is set while the ART ordering findings (C07-F7*) are open and the case uses
+// the ART memtable: seek targets and bounds are then drawn from the stored keys only,
+// because a target that is prefix-related to a stored key hits the same finding.
+var exactOnly bool
+
 func genBound(t *rapid.T, keys [][]byte, label string) []byte {
-	switch rapid.IntRange(0, 5).Draw(t, label+"Kind") {
+	kind := rapid.IntRange(0, 5).Draw(t, label+"Kind")
+	if exactOnly && kind >= 4 {
+		kind = 2
+	}
+	switch kind {
 	case 0, 1:
 		return nil
 	case 2, 3:
@@ -116,6 +127,7 @@ func genIter(t *rapid.T, keys [][]byte, heavy bool) IterSpec {
 		if st.K == "seek" {
 			st.Target = genBound(t, keys, "seek")
 		}
+		st.NoVal = rapid.IntRange(0, 2).Draw(t, "noval") == 0
 		it.Script = append(it.Script, st)
 	}
 	return it
@@ -136,8 +148,10 @@ func Gen(t *rapid.T, p Profile) Case {
 		maxKeys = 5
 	}
 	c.Keys = eng.KeyPool(t, 1, maxKeys)
+	exactOnly = false
 	if c.Cfg.Engine == "art" && (pbt.Open("C07-F7") || pbt.Open("C07-F7pad")) {
 		c.Keys = prefixFree(c.Keys)
+		exactOnly = true
 	}
 	maxOps := p.MaxOps
 	if maxOps == 0 {
@@ -145,7 +159,7 @@ func Gen(t *rapid.T, p Profile) Case {
 	}
 	n := rapid.IntRange(5, maxOps).Draw(t, "nops")
 	for i := 0; i < n; i++ {
-		op := Op{K: rapid.SampledFrom(p.OpKinds).Draw(t, "op"), T: rapid.IntRange(0, 3).Draw(t, "slot")}
+		op := Op{K: rapid.SampledFrom(p.OpKinds).Draw(t, "op"), T: rapid.IntRange(0, 2).Draw(t, "slot")}
 		switch op.K {
 		case "begin":
 			op.Update = rapid.IntRange(0, 3).Draw(t, "update") != 0
@@ -342,10 +356,23 @@ func (m *machine) begin(slot int, update bool) *mtxn {
 	return tx
 }
 
+var trace = os.Getenv("VERIF_TRACE") != ""
+
 func (m *machine) step(i int, op Op) error {
+	err := m.step0(i, op)
+	if trace {
+		fmt.Printf("TRACE step %d %s slot=%d key=%d vsize=%d exp=%d maint=%v -> err=%v commits=%d nextTs=%d\n", i, op.K, op.T, op.Key, op.VSize, op.Exp, op.M, err, len(m.commits), m.db.VerifNextTxnTs())
+	}
+	return err
+}
+
+func (m *machine) step0(i int, op Op) error {
 	r := m.r
 	switch op.K {
 	case "begin":
+		if m.slots[op.T] != nil {
+			return nil // slot busy: keep the open transaction (restarting it would throw its work away)
+		}
 		tx := m.begin(op.T, op.Update)
 		// snapshot timestamp must cover every acknowledged commit
 		if len(m.commits) > 0 && tx.readTs < m.commits[len(m.commits)-1].version {
@@ -355,7 +382,7 @@ func (m *machine) step(i int, op Op) error {
 	case "get":
 		tx := m.slots[op.T]
 		if tx == nil {
-			tx = m.begin(op.T, false)
+			tx = m.begin(op.T, true)
 		}
 		return m.get(i, tx, m.c.Keys[op.Key%len(m.c.Keys)])
 	case "set", "del":
@@ -733,6 +760,53 @@ func (m *machine) expected(tx *mtxn, spec IterSpec) (seq []ient, skip map[string
 }
 
 func (m *machine) iterate(i int, tx *mtxn, spec IterSpec) error {
+	err := m.iterate0(i, tx, spec)
+	if err == nil {
+		return nil
+	}
+	if f, ok := err.(*pbt.Fail); ok && f.Sig != "panic" {
+		f.Msg += m.dump(tx, spec)
+	}
+	return err
+}
+
+// dump renders the expected sequence and what a fresh iterator with the same options yields.
+func (m *machine) dump(tx *mtxn, spec IterSpec) (out string) {
+	defer func() {
+		if p := recover(); p != nil {
+			out += fmt.Sprintf(" (dump panicked: %v)", p)
+		}
+	}()
+	exp, skip := m.expected(tx, spec)
+	if spec.Reverse {
+		for a, b := 0, len(exp)-1; a < b; a, b = a+1, b-1 {
+			exp[a], exp[b] = exp[b], exp[a]
+		}
+	}
+	out = "\n  expected full sequence:"
+	for _, e := range exp {
+		out += fmt.Sprintf(" %q@%d", e.key, e.ver)
+	}
+	out += fmt.Sprintf("\n  skipped keys: %d\n  engine full sequence:", len(skip))
+	opt := NoKV.IteratorOptions{Reverse: spec.Reverse, AllVersions: spec.AllVersions, KeyOnly: spec.KeyOnly, LowerBound: spec.Lower, UpperBound: spec.Upper}
+	var it *NoKV.TxnIterator
+	if spec.KeyIter {
+		it = tx.tx.NewKeyIterator(spec.Prefix, NoKV.IteratorOptions{Reverse: spec.Reverse, KeyOnly: spec.KeyOnly})
+	} else {
+		opt.Prefix = spec.Prefix
+		it = tx.tx.NewIterator(opt)
+	}
+	defer it.Close()
+	n := 0
+	for it.Rewind(); it.Valid() && n < 40; it.Next() {
+		e := it.Item().Entry()
+		out += fmt.Sprintf(" %q@%d(meta=%d,exp=%d)", e.Key, e.Version, e.Meta, e.ExpiresAt)
+		n++
+	}
+	return out
+}
+
+func (m *machine) iterate0(i int, tx *mtxn, spec IterSpec) error {
 	r := m.r
 	if spec.KeyIter && len(spec.Prefix) == 0 {
 		return nil
@@ -825,6 +899,10 @@ func (m *machine) iterate(i int, tx *mtxn, spec IterSpec) error {
 		if !bytes.Equal(e.Key, w.key) || e.Version != w.ver {
 			return pbt.Failf("iter-order", "step %d: %s: after script step %d (%s %q) the iterator yields key %q version %d, want key %q version %d", i, desc, si, st.K, st.Target, e.Key, e.Version, w.key, w.ver)
 		}
+		tx.reads[string(w.key)] = true
+		if st.NoVal {
+			continue
+		}
 		val, verr := it.Item().ValueCopy(nil)
 		if verr != nil {
 			return pbt.Failf("iter-value", "step %d: %s: ValueCopy(%q@%d): %v", i, desc, e.Key, e.Version, verr)
@@ -832,7 +910,6 @@ func (m *machine) iterate(i int, tx *mtxn, spec IterSpec) error {
 		if !bytes.Equal(val, w.w.val) {
 			return pbt.Failf("iter-value", "step %d: %s: key %q version %d has value %s, want %s", i, desc, e.Key, e.Version, brief(val), brief(w.w.val))
 		}
-		tx.reads[string(w.key)] = true
 	}
 	if len(exp) >= 3 && (m.flushes > 0 || tx.update && len(tx.pending) > 0) {
 		interesting := false
